@@ -36,6 +36,7 @@ from ..type.definition import (
 __all__ = ["default_scalar_value_to_literal", "value_to_literal"]
 
 _re_integer_string = re.compile("^-?(?:0|[1-9][0-9]*)$")
+_re_name = re.compile("[_a-zA-Z][_a-zA-Z0-9]*")
 
 
 def value_to_literal(value: Any, type_: GraphQLInputType) -> ConstValueNode | None:
@@ -157,6 +158,10 @@ def default_scalar_value_to_literal(value: Any) -> ConstValueNode:
     if isinstance(value, Mapping):
         fields: list[ObjectFieldNode] = []
         for field_name, field_value in value.items():
+            # A key that is not a GraphQL Name cannot be written as an object field.
+            if not (isinstance(field_name, str) and _re_name.fullmatch(field_name)):
+                msg = f"Cannot convert value to AST: {inspect(value)}."
+                raise TypeError(msg)
             # Like JSON, undefined fields are not included in the literal result.
             if field_value is not Undefined:
                 fields.append(
